@@ -119,6 +119,38 @@ def specRun (m : List (K × V)) : List (Op K V) → List (K × V) × List (Out K
       let (m'', os) := specRun m' ops
       (m'', o :: os)
 
+/-! ### ParameterTable (list mode, `keys=False`): a plain Python list of records -/
+
+inductive LOp (V : Type) where
+  | append (v : V)
+  | del (i : Int)       -- `del t[i]`
+  | get (i : Int)       -- `t[i]`
+  | len
+  | items               -- `t.items()` = list(enumerate(data))
+
+/-- Python `del l[i]` : index normalisation as for reading; `none` = IndexError. -/
+def pyDel {α : Type} (l : List α) (i : Int) : Option (List α) :=
+  if 0 ≤ i then (if i.toNat < l.length then some (l.eraseIdx i.toNat) else none)
+  else if 0 ≤ i + l.length then some (l.eraseIdx (i + l.length).toNat) else none
+
+def lstep {V : Type} (l : List V) : LOp V → List V × Out Nat V
+  | .append v => (l ++ [v], .unit)
+  | .del i => match pyDel l i with
+      | some l' => (l', .unit)
+      | none => (l, .err)
+  | .get i => match pyIndex l i with
+      | some v => (l, .val v)
+      | none => (l, .err)
+  | .len => (l, .nat l.length)
+  | .items => (l, .items ((List.range l.length).zip l))
+
+def lrun {V : Type} (l : List V) : List (LOp V) → List V × List (Out Nat V)
+  | [] => (l, [])
+  | op :: ops =>
+      let (l', o) := lstep l op
+      let (l'', os) := lrun l' ops
+      (l'', o :: os)
+
 /-! ### RowCollector (list mode) -/
 
 /-- Column-wise storage: `cols[n]` is the list stored under attribute `_columns[n]`. -/
